@@ -533,7 +533,18 @@ func (w *wflow) exec(nodes []*wnode, in []*wstate, params map[string]bool, done 
 				}
 				sort.Strings(names)
 				for _, l := range names {
-					h.locals[l] = w.fresh(l)
+					// the value the variable has when the loop is entered, for rules that reason by induction
+					var entry *wterm
+					if t, ok := h.locals[l]; ok {
+						entry = t
+					} else if params[l] {
+						entry = &wterm{Op: "param", Name: l}
+					} else {
+						entry = wConst(0)
+					}
+					fv := w.fresh(l)
+					h.locals[l] = fv
+					h.events = append(h.events, wevent{Kind: "loopinit", Name: l, Args: []*wterm{entry, fv}, Line: n.Ins.Line})
 				}
 				names = names[:0]
 				for g := range gs {
